@@ -391,6 +391,7 @@ class FunctionExpression(Node):
     id: Optional[Identifier]
     params: List[Identifier]
     body: BlockStatement
+    is_method: bool = False  # object-literal method/getter/setter: not a constructor
 
 
 @dataclass
